@@ -89,7 +89,7 @@ func defaults() scenario {
 
 const (
 	myCall     = "LA5NTA-1"
-	remoteCall = "N0CALL-7"
+	remoteCall = "N0CALL-1"
 	otherCall  = "SM0XYZ-2"
 	thirdCall  = "OH2ABC-5"
 )
@@ -372,7 +372,7 @@ func harmlessFrame(r *rand.Rand, port uint8, dual bool) simagw.Frame {
 		// otherCall is a live connection of this application then: frames in its name are not noise
 		otherCall = thirdCall
 	}
-	switch r.Intn(11) {
+	switch r.Intn(14) {
 	case 0: // same stations, another port
 		return simagw.Frame{Kind: 'D', PID: 0xF0, Port: otherPort(r, port), From: remoteCall, To: myCall, Data: junk(r.Intn(200))}
 	case 1: // another remote station on the same port (a second connection of this callsign)
@@ -399,6 +399,22 @@ func harmlessFrame(r *rand.Rand, port uint8, dual bool) simagw.Frame {
 		return simagw.Frame{Kind: 'd', Port: otherPort(r, port), From: remoteCall, To: myCall, Data: []byte("*** DISCONNECTED From Station " + remoteCall + "\r\x00")}
 	case 9: // stray short control replies nobody asked for
 		return simagw.Frame{Kind: vrt.Pick(r, []byte{'G', 'y', 'H', 'T'}), Port: port, Data: vrt.Bytes(r, r.Intn(5))}
+	case 10, 11: // a station whose callsign EXTENDS the remote station's (N0CALL-1 vs N0CALL-10 / -15): another station
+		longer := remoteCall + vrt.Pick(r, []string{"0", "5"})
+		switch r.Intn(4) {
+		case 0:
+			return simagw.Frame{Kind: 'd', Port: port, From: longer, To: myCall, Data: []byte("*** DISCONNECTED From Station " + longer + "\r\x00")}
+		case 1:
+			return simagw.Frame{Kind: 'Y', Port: port, From: myCall, To: longer, Data: []byte{0, 0, 0, 0}}
+		default:
+			return simagw.Frame{Kind: 'D', PID: 0xF0, Port: port, From: longer, To: myCall, Data: junk(r.Intn(120))}
+		}
+	case 12: // traffic for a local callsign that extends this application's (LA5NTA-1 vs LA5NTA-10)
+		mine := myCall + "0"
+		if r.Intn(2) == 0 {
+			return simagw.Frame{Kind: 'C', Port: port, From: otherCall, To: mine, Data: []byte("*** CONNECTED To Station " + otherCall + "\r\x00")}
+		}
+		return simagw.Frame{Kind: 'D', PID: 0xF0, Port: port, From: remoteCall + "5", To: mine, Data: junk(r.Intn(120))}
 	default: // empty frame of an unknown kind
 		return simagw.Frame{Kind: 'z', Port: port}
 	}
